@@ -29,6 +29,9 @@ def run_cases(c, cases, mode, schema=SCHEMA):
         x["id"] = i + 1
         # every third case runs with a pass-through extension registered (extension-aware executor paths)
         x.setdefault("ext", i % 3 == 2)
+        # every fifth case is executed through Schema::execute_stream (first item), the entry point of the
+        # WebSocket / multipart transports, instead of Schema::execute
+        x.setdefault("stream", i % 5 == 1)
     vlib.write_ndjson(c.path("cases.ndjson"), cases)
     (binary,) = vlib.build_harness(["cexec"])
     p = vlib.run_harness(binary, [c.path("cases.ndjson"), c.path("trace.ndjson"), schema], timeout=3000)
